@@ -160,6 +160,13 @@ func (w *verifWorld) inv(check func(bool, string)) {
 	}
 	// the nil connection (what a failed NewSubConn returns) is a key of no map: every loop over these
 	// maps calls methods on the keys
+	// every entry of the channel list is a channel with a connection (dead ones keep their last one)
+	for i := 0; i < vR+vF+1; i++ {
+		if i < len(gb.scRefList) {
+			e := gb.scRefList[i]
+			check(e != nil && verifOrElse(e, w.refs[0]).subConn != nil, "C05,C09: I-list the channel list holds a channel without a connection")
+		}
+	}
 	var nilSC balancer.SubConn
 	_, nil1 := gb.scRefs[nilSC]
 	_, nil2 := gb.scStates[nilSC]
